@@ -99,6 +99,13 @@ def observe(arg):
                     fs = [build(e) for e, q in t["comps"]]
                     for f, q in zip(fs, qs):
                         args += [f, q]
+                if t.get("near_integer") and not t.get("strings"):
+                    # nearly stoichiometric amounts: the second component's moles are K*(1+d) times the first's, d ~ 1e-7
+                    K, d = t["near_integer"]
+                    qs = [fs[0].mass, K * (1.0 + d) * fs[1].mass] + qs[2:]
+                    args = []
+                    for f, q in zip(fs, qs):
+                        args += [f, q]
                 fn = formulas.mix_by_weight if t["mode"] == "weight" else formulas.mix_by_volume
                 if "density" in t:
                     kw["density"] = t["density"]
